@@ -515,7 +515,9 @@ func genFull(seed int64, property string) *Plan {
 				jp.Cron = []string{"* * * * *"}
 			}
 			if r.Intn(4) == 0 {
-				jp.Timezone = []string{"Asia/Singapore", "UTC-07:00", "America/New_York"}[r.Intn(3)]
+				// zones without daylight saving only: the full preset draws its epoch uniformly, and
+				// cron semantics inside a DST fold belong to the cron library, not to furiko (§4.2)
+				jp.Timezone = []string{"Asia/Singapore", "UTC-07:00", "America/Phoenix", "Asia/Kolkata"}[r.Intn(4)]
 			}
 			if r.Intn(3) == 0 {
 				ls := epoch.Unix() - int64([]int{5, 40, 100, 400}[r.Intn(4)])
